@@ -60,6 +60,22 @@ Theorem exactly_full_and_empty :
 Proof. exact full_and_empty. Qed.
 Print Assumptions exactly_full_and_empty.
 
+Theorem packet_reads_stay_on_packet_boundaries :
+  forall p, 0 < p -> forall ops s,
+    Forall (fun o => match o with
+                     | Write _ => True
+                     | ReadMultipleOf k | DiscardStride k => k = p
+                     | _ => False end) ops ->
+    rp s mod p = 0 -> rp (fst (run s ops)) mod p = 0.
+Proof. exact packet_alignment_preserved. Qed.
+Print Assumptions packet_reads_stay_on_packet_boundaries.
+
+Theorem start_discard_aligns_or_keeps :
+  forall s p, 0 < p ->
+    let s' := fst (discard_stride s p) in rp s' mod p = 0 \/ rp s' = rp s.
+Proof. exact start_aligns_or_keeps. Qed.
+Print Assumptions start_discard_aligns_or_keeps.
+
 Theorem ring_refines_fifo_refuted_pre_fix :
   C18_check old_witness = false /\ returned old_witness = [0;1;2;3;4;4;5;6].
 Proof. exact ring_refines_fifo_refuted_before_fix. Qed.
